@@ -75,6 +75,13 @@ func (g *c11Gen) data(depth int) *amlData {
 	case "buffer":
 		n := rapid.IntRange(0, 10).Draw(g.t, "blen")
 		d.S = rapid.SliceOfN(rapid.Byte(), n, n).Draw(g.t, "bbytes")
+		if depth == 0 && rapid.IntRange(0, 150).Draw(g.t, "hugebuf") == 0 {
+			// a package longer than 2^20 bytes: needs all four PkgLength bytes
+			d.S = []byte{byte(rapid.IntRange(1, 255).Draw(g.t, "fill")), 0x5a}
+			d.Rep = 1<<19 + rapid.IntRange(0, 40).Draw(g.t, "hugerep")
+			n = 2 * d.Rep
+			g.stats.hugePkg++
+		}
 		d.V = uint64(n + rapid.SampledFrom([]int{0, 0, 1, 300, 70000}).Draw(g.t, "bextra"))
 		d.W = g.width()
 		g.stats.deferred++
@@ -566,6 +573,7 @@ func TestVerifC11(t *testing.T) {
 		add(g.stats.tables > 1, "multi-table")
 		add(g.stats.nonMinimalPkg > 0, "non-minimal-pkglength")
 		add(g.stats.deferred > 0, "deferred-block")
+		add(g.stats.hugePkg > 0, "package-longer-than-1MiB")
 		labels = append(labels, fmt.Sprintf("tables=%d", g.stats.tables))
 		st.Case(c, (g.stats.scopeDirectives > 0 || g.stats.relocated > 0) && g.stats.callsWithArgs > 0, labels...)
 		if fail != nil && strings.HasPrefix(fail.Msg, "VERIF-HARNESS") {
